@@ -20,7 +20,8 @@
 EXTENDS Integers, Sequences, FiniteSets, TLC
 CONSTANTS Callers,          \* 1..n
           ConnStates,       \* subset of {"up", "absent", "broken"} the scenario may start in
-          MaxReplies, LeakOnSendError, RemoveOnTimeout, MatchCreation
+          MaxReplies, LeakOnSendError, RemoveOnTimeout, MatchCreation,
+          SeqCallers        \* TRUE: generator configurations in which caller c starts only after every caller below c has returned
 VARIABLES pc, rid, table, conn, wire, inbox, result, nextRid, replies, delivered, hist
 vars == <<pc, rid, table, conn, wire, inbox, result, nextRid, replies, delivered, hist>>
 None == 0
@@ -35,7 +36,7 @@ Init == /\ pc = [c \in Callers |-> "idle"] /\ rid = [c \in Callers |-> None] /\ 
         /\ delivered = [r \in 1..Cardinality(Callers) |-> 0] /\ hist = <<>>
 Go(c, from, to) == pc[c] = from /\ pc' = [pc EXCEPT ![c] = to]
 H(a, x) == hist' = Append(hist, <<a, x>>)
-Alloc(c)  == Go(c, "idle", "allocated") /\ rid' = [rid EXCEPT ![c] = nextRid] /\ nextRid' = nextRid + 1 /\ H("alloc", c)
+Alloc(c)  == Go(c, "idle", "allocated") /\ (SeqCallers => \A d \in Callers : d < c => pc[d] = "returned") /\ rid' = [rid EXCEPT ![c] = nextRid] /\ nextRid' = nextRid + 1 /\ H("alloc", c)
              /\ UNCHANGED <<table, conn, wire, inbox, result, replies, delivered>>
 Insert(c) == Go(c, "allocated", "inserted") /\ table' = table \cup {rid[c]} /\ H("insert", c)
              /\ UNCHANGED <<rid, conn, wire, inbox, result, nextRid, replies, delivered>>
